@@ -547,6 +547,7 @@ impl TraitAttrCore {
 
 impl Parse for TraitAttrCore {
     fn parse(input: ParseStream) -> Result<Self> {
+        check_literals_in_type_position(input, true)?;
         let ty: TypePath = if input.peek(Paren) {
             let content;
             parenthesized!(content in input);
@@ -763,6 +764,7 @@ pub(crate) struct WhereAttr {
 
 impl Parse for WhereAttr {
     fn parse(input: ParseStream) -> Result<Self> {
+        check_literals_in_type_position(input, false)?;
         Ok(WhereAttr {
             container_ty: try_parse_container_ident(input, false),
             where_clause: Punctuated::parse_separated_nonempty(input)?,
@@ -777,6 +779,7 @@ pub(crate) struct ChildParentsAttr {
 
 impl Parse for ChildParentsAttr {
     fn parse(input: ParseStream) -> Result<Self> {
+        check_literals_in_type_position(input, false)?;
         Ok(ChildParentsAttr {
             container_ty: try_parse_container_ident(input, false),
             child_parents: try_parse_child_parents(input)?,
@@ -842,6 +845,7 @@ pub(crate) struct ParentAttr {
 
 impl Parse for ParentAttr {
     fn parse(input: ParseStream) -> Result<Self> {
+        check_literals_in_type_position(input, false)?;
         let container_ty = try_parse_container_ident(input, true);
         let child_fields: Option<Punctuated<ParentChildFieldAsParsed, Comma>> = input.is_empty().not().then(|| Punctuated::parse_terminated(input)).transpose()?;
 
@@ -905,6 +909,7 @@ impl Parse for ParentChildFieldAsParsed {
                 },
                 "parent" => {
                     if parent_attr.is_none() {
+                        check_literals_in_type_position(&content_inner, false)?;
                         parent_attr = Some(Punctuated::parse_terminated(&content_inner)?)
                     } else {
                         Err(syn::Error::new(instr.span(), "Cannot have more than one [parent(...)] instruction here"))?
@@ -1415,6 +1420,35 @@ fn peek_integer_or_no_literal(input: ParseStream) -> bool {
     input.cursor().literal().map_or(true, |(lit, _)| lit.to_string().starts_with(|c: char| c.is_ascii_digit()))
 }
 
+// Types, paths and where predicates are handed to syn as a whole: a literal token syn 1 predates (c"..") in there would make
+// it panic, and cannot be meant anyway. Looks at the tokens up to the first '|' on this level (all of them if there is none),
+// into parentheses, but not into brackets and braces, which hold instructions and expressions.
+fn check_literals_in_type_position(input: ParseStream, up_to_bar: bool) -> Result<()> {
+    fn scan(mut cursor: syn::buffer::Cursor, up_to_bar: bool) -> Option<Span> {
+        while let Some((tt, next)) = cursor.token_tree() {
+            match &tt {
+                proc_macro2::TokenTree::Punct(p) if up_to_bar && p.as_char() == '|' => return None,
+                proc_macro2::TokenTree::Literal(lit) if !lit.to_string().starts_with(|c: char| c.is_ascii_digit() || c == '"' || c == '\'' || c == 'b' || c == 'r' || c == '-') => return Some(lit.span()),
+                proc_macro2::TokenTree::Group(_) => {
+                    if let Some((inside, _, _)) = cursor.group(proc_macro2::Delimiter::Parenthesis) {
+                        if let Some(span) = scan(inside, false) {
+                            return Some(span);
+                        }
+                    }
+                }
+                _ => (),
+            }
+            cursor = next;
+        }
+        None
+    }
+
+    match scan(input.cursor(), up_to_bar) {
+        Some(span) => Err(syn::Error::new(span, "This kind of literal is not expected in a type.")),
+        None => Ok(()),
+    }
+}
+
 fn parse_member(input: ParseStream) -> Result<Member> {
     if !peek_integer_or_no_literal(input) {
         return Err(input.error("expected identifier or integer"));
@@ -1424,6 +1458,10 @@ fn parse_member(input: ParseStream) -> Result<Member> {
 }
 
 fn peek_container_path(input: ParseStream, can_be_empty: bool) -> bool {
+    if check_literals_in_type_position(input, true).is_err() {
+        return false;
+    }
+
     let fork = input.fork();
     match fork.parse::<syn::Path>() {
         Ok(_) => (can_be_empty && fork.is_empty()) || fork.peek(Token![|]),
